@@ -37,10 +37,31 @@ fn reply(m: &Msg) -> Msg {
     Msg { id: m.id, scenario: m.scenario, text: format!("reply to {}", m.text), blob: m.blob.iter().rev().copied().collect() }
 }
 
+/// The error a scripted handler returns, in every shape a `Status` can have: code only, message
+/// only (short / non-ASCII / 5 kB / empty), headers only, message and headers.
+fn status_shape(id: u64) -> (StatusCode, Option<String>, Vec<(String, String)>) {
+    let code = CODES[(id % 7) as usize];
+    let two = vec![("x-err".to_owned(), id.to_string()), ("x-second".to_owned(), "2".to_owned())];
+    match (id / 7) % 6 {
+        0 => (code, Some(format!("scripted failure {id}")), two),
+        1 => (code, None, vec![]),
+        2 => (code, Some(format!("fällt aus: 失敗 {id} {}", "長".repeat((id % 1700) as usize))), vec![]),
+        3 => (code, None, (0..5).map(|i| (format!("x-h{i}-ключ"), format!("wert-{id}-{}", "ü".repeat(i * 40)))).collect()),
+        4 => (code, Some(String::new()), vec![("x-err".to_owned(), id.to_string())]),
+        _ => (code, Some(format!("scripted failure {id}")), vec![("a".to_owned(), String::new()), (String::new(), "empty key".to_owned()), ("x-err".to_owned(), id.to_string())]),
+    }
+}
+
 fn status_for(m: &Msg) -> Status {
-    Status::new_with_message(CODES[(m.id % 7) as usize], format!("scripted failure {}", m.id))
-        .with_header("x-err", m.id.to_string())
-        .with_header("x-second", "2")
+    let (code, msg, headers) = status_shape(m.id);
+    let mut st = match msg {
+        Some(m) => Status::new_with_message(code, m),
+        None => Status::new(code),
+    };
+    for (k, v) in headers {
+        st = st.with_header(k, v);
+    }
+    st
 }
 
 /// scenarios: 0,1 Ok; 2,3 Err(Status); 4 Ok with extra response headers; 5.. raw-bytes tricks
@@ -116,18 +137,18 @@ pub fn judge(
         }
         Err(st) => {
             if expect_err_status {
-                let want = status_for(&sent);
-                if st.status() != want.status() {
-                    problems.push(format!("status code {:?} became {:?}", want.status(), st.status()));
+                let (want_code, want_msg, want_headers) = status_shape(id);
+                if st.status() != want_code {
+                    problems.push(format!("status code {:?} became {:?}", want_code, st.status()));
                 }
-                for (k, v) in want.headers() {
+                for (k, v) in &want_headers {
                     if st.headers().get(k) != Some(v) {
-                        problems.push(format!("status header {k} lost or altered"));
+                        problems.push(format!("status header {k:?} lost or altered (status shape {})", (id / 7) % 6));
                     }
                 }
                 let msg_hdr = st.headers().get("status-message").cloned();
-                if msg_hdr != Some(format!("scripted failure {id}")) {
-                    problems.push(format!("status message lost or altered: {msg_hdr:?}"));
+                if msg_hdr != want_msg {
+                    problems.push(format!("status message lost or altered (status shape {}): got {:?}, handler set {:?}", (id / 7) % 6, msg_hdr.map(|m| m.chars().take(40).collect::<String>()), want_msg.map(|m| m.chars().take(40).collect::<String>())));
                 }
             } else if !undecodable {
                 problems.push(format!("handler succeeded but the client returned an error status {:?}", st.status()));
